@@ -24,9 +24,51 @@ FLOORS_C07 = {
     "paths_invalid_negative_index": 300, "paths_invalid_negative_selector": 1000,
     "lookup_by_default_name": 500, "sizes_lines": 5000,
 }
+# histories on one build.Context (c07h), for a run of 600 histories: about a quarter of what the generator produces
+FLOORS_C07H = {
+    "histories": 600, "hist_multi_function": 300, "hist_same_pointer_dereferenced_in_two_functions": 60,
+    "hist_same_pointer_dereferenced_twice_in_a_function": 60, "hist_nested_dereference": 80,
+    "hist_load_store_through_handle": 120, "dereference_emitted_load": 1000, "load_store_through_handle_emitted": 500,
+    "derefs_with_observed_base": 800, "hresolve_ok": 2500, "fn_sig_same": 100, "fn_sig_shift": 50, "fn_sig_rotate": 40,
+    "fn_sig_fresh": 60, "hist_via_c": 100, "hist_via_p": 50, "hist_via_m": 50, "labels": 200, "fn_signature_expr": 15,
+    "calls_with_error": 100, "corpus_histories": 6,
+}
 ROUTES = ("direct", "parse", "parse-in-package", "lookup")
 # per generated function of the measured part
 FLOORS_C07X = {"param_leaves": 2, "result_leaves": 0.5, "exec_pairs_run": 0.5, "compiler_size_lines": 1, "deref_loads": 0.1}
+
+
+HIST_KINDS = {"ctxhist", "accept-ctxhist", "accept-hresolve"}
+
+
+def _replay_kinds(ctx):
+    """First words of the request lines of a replay file (None when not replaying)."""
+    if not ctx.replay:
+        return None
+    kinds = set()
+    try:
+        data = open(ctx.replay).read()
+        if data.lstrip().startswith("{"):
+            import json
+
+            def walk(x):
+                if isinstance(x, dict):
+                    for k, y in x.items():
+                        if k == "request" and isinstance(y, str):
+                            kinds.add(y.split(" ", 1)[0])
+                        else:
+                            walk(y)
+                elif isinstance(x, list):
+                    for y in x:
+                        walk(y)
+            walk(json.loads(data))
+        else:
+            for l in data.splitlines():
+                if l.strip() and not l.startswith("#"):
+                    kinds.add(l.split()[0])
+    except Exception:
+        pass
+    return kinds
 
 
 def _floors(ctx, name, stats, floors, scale):
@@ -43,16 +85,16 @@ def _floors(ctx, name, stats, floors, scale):
 
 
 def run(ctx):
-    if not ctx.build_harness(["c07.go", "c07x.go"]):
+    if not ctx.build_harness(["c07.go", "c07x.go", "c07h.go"]):
         return
     ctx.forbidden_scan()
     # model + acceptor must build even when a theorem breaks
     if not ctx.build_driver():
         return
-    if ctx.lake_each(["AvoVerif.Props.C07"]):
+    if ctx.lake_each(["AvoVerif.Props.C07", "AvoVerif.Props.C07Ctx"]):
         ctx.audit("C07")
     if ctx.tier == "thorough":
-        ctx.leanchecker(["AvoVerif.Model.Layout", "AvoVerif.Props.C07"])
+        ctx.leanchecker(["AvoVerif.Model.Layout", "AvoVerif.Props.C07", "AvoVerif.Model.LayoutCtx", "AvoVerif.Props.C07Ctx"])
 
     quick = ctx.tier == "quick"
     nontrivial = lambda req, resp: resp != "err"
@@ -64,9 +106,19 @@ def run(ctx):
     else:
         ctx.discharged += 1
     _rm(ctx, "c07", "-corpus")
+    # (the same corpus files through the history harness: it re-runs the `ctxhist` lines, c07 the others)
+    ncorpus = ctx.coverage.get("corpus_cases", 0)
+    ctx.run_corpus("c07h", nontrivial=lambda req, resp: resp != "panic")
+    ctx.coverage["corpus_cases"] = ncorpus
+    _rm(ctx, "c07h", "-corpus")
     # 1. exact model comparison + acceptors on generated signatures x component paths (negative indices and
     #    selectors — regression of F3, fixed in aab3c52 — are part of the normal stream and of the corpus)
     chunks = [(3000, 0)] if quick else [(6000, k) for k in range(10)]
+    # a replay file is re-run by the harness that wrote its lines: c07h the histories, c07 everything else
+    kinds = _replay_kinds(ctx)
+    hist_replay = kinds is not None and bool(kinds & HIST_KINDS)
+    if kinds is not None and hist_replay and not (kinds - HIST_KINDS):
+        chunks = []
     for n, k in chunks:
         tag = "" if quick else f"-{k}"
         r = ctx.differential("c07", n, extra=["-chunk", str(k)], tag=tag, nontrivial=nontrivial)
@@ -81,6 +133,23 @@ def run(ctx):
         st["routes_build"] = sum(v for kk, v in st.items() if kk.startswith("route_") and kk.endswith("+build"))
         fl["routes_build"] = 150
         _floors(ctx, "c07" + tag, st, fl, n / 3000.0)
+    # 1b. histories of calls on ONE build.Context: several functions (same / shifted / rotated / fresh signatures with
+    #     the same names), Dereference of the same pointer in several functions and several times in one, Load/Store
+    #     through the returned components, nested, labels, Context methods and package-level functions — the emitted
+    #     (opcode, operands) sequence of every function vs the model (exact), the implementation's own file judged by
+    #     the acceptor domOKb (every pointer a function dereferences is loaded in THAT function before use), and the
+    #     operand of every emitted instruction judged by ResolveSpec against the signature of its own function
+    hchunks = [(600, 0)] if quick else [(3000, k) for k in range(4)]
+    if kinds is not None and not hist_replay:
+        hchunks = []
+    for n, k in hchunks:
+        tag = "" if quick else f"-{k}"
+        r = ctx.differential("c07h", n, extra=["-chunk", str(k)], tag=tag, nontrivial=lambda req, resp: resp != "panic")
+        _rm(ctx, "c07h", tag)
+        if r is None or ctx.replay:
+            continue
+        st = ctx.coverage.get("input_distribution", {}).get("c07h" + tag, {})
+        _floors(ctx, "c07h" + tag, st, {kk: (v if kk == "corpus_histories" else v * n / 600.0) for kk, v in FLOORS_C07H.items()}, 1)
     # 2. compiler agreement (measured): reflect/unsafe sizes of the real compiler, go vet -asmdecl and
     #    execution of generated stub+asm pairs whose operands are the implementation's resolved addresses
     gen = os.path.join(ctx.dir, "gen")
@@ -116,8 +185,17 @@ def run(ctx):
         "by the acceptor ResolveSpec/MustResolve against the independently written asmdecl layout — the offset is pinned "
         "by walking the type tree (pathComps), not by the flattened name alone; Bytes() and the printed TEXT size vs "
         "asmdecl's argument size; model sizeof/alignof/offsetsof vs go/types gc/amd64 on every generated type and vs the "
-        "compiler (reflect) on a sample; go vet -asmdecl and execution on generated stub+asm pairs. Lower bounds on the "
-        "number of judged cases per class (FLOORS_C07, FLOORS_C07X) are obligations. "
+        "compiler (reflect) on a sample; go vet -asmdecl and execution on generated stub+asm pairs. "
+        "Histories on ONE build.Context (c07h): 1..4 functions per Context with the same / a shifted / a rotated / a fresh "
+        "signature over a small pool of names, per function 3..12 calls among GP8..GP64/XMM allocation, Load/Store of "
+        "scalar components into registers of the component's size, Dereference of pointer components (the same one "
+        "repeatedly in a function and in several functions, nested, of non-pointers and missing components), Load/Store "
+        "through the returned components, ADDQ/XORQ/NOP, labels; through the Context's methods, the package-level "
+        "functions, or alternating; Signature or SignatureExpr: the (opcode, operands) sequence of every function and "
+        "the calls that recorded an error vs the model (exact, registers named by the call that first showed them), the "
+        "implementation's own node lists judged by domOKb (proved sound for DomOK), every emitted operand judged by "
+        "ResolveSpec against the signature of its own function. Lower bounds on the "
+        "number of judged cases per class (FLOORS_C07, FLOORS_C07H, FLOORS_C07X) are obligations. "
         "non-trivial = response other than `err`")
     ctx.assumptions += [
         "gc/amd64 only (WordSize = MaxAlign = 8), ABI0 assembly functions",
@@ -136,9 +214,13 @@ def run(ctx):
         "Field(promoted) is an error in avo and in the model",
         "the asmdecl layout (names, offsets, sizes, argument size) is the toolchain's truth for assembly functions; it is "
         "re-measured on every run with go vet, reflect and execution on a sample",
-        "Dereference echoes whatever register it is given (also non-64-bit and vector registers, which cannot hold a "
-        "pointer; a nil register is not generated); build.Dereference (allocating a virtual register and loading the "
-        "pointer) belongs to C08",
+        "Component.Dereference echoes whatever register it is given (also non-64-bit and vector registers, which cannot hold a "
+        "pointer; a nil register is not generated)",
+        "histories (c07h): which MOV Load/Store select is C08's subject; the model has only the rows the histories reach "
+        "(integer/bool/pointer component with a general-purpose register of the component's size, float with XMM; "
+        "Dereference of integers narrower than 8 bytes is not generated); straight-line segments: a component returned "
+        "by Dereference is used only until the next label or function (a label may be a jump target, so the acceptor "
+        "demands the load after the last label); components are not carried from one function into the next",
     ]
     ctx.trusted += [
         "go/types SizesFor(gc, amd64), cmd/compile (reflect type data, ABI0 frame layout), go vet asmdecl and the host CPU as oracles",
@@ -149,6 +231,10 @@ def run(ctx):
         "are removed, at most one blank field per struct), so vet never sees colliding flattened names or blank "
         "variables; Lean's asmComponents is not compared with vet's variable table directly but through the absence of "
         "diagnostics on addresses the model agrees with",
+        "histories (c07h): the harness reads the node lists of every function of the Context's file after each call and "
+        "names a virtual register by the call that first showed it; the register a component returned by Dereference is "
+        "based on is observed by resolving a scalar of the pointee (a pointee without any scalar is not observable); the "
+        "basic type in accept-hresolve lines is Resolve's (the emitted instruction does not carry it)",
         "build.Implement itself (packages.Load of a package on disk) is not called: its route LookupSignature is, on a "
         "package type-checked in memory",
     ]
